@@ -379,7 +379,28 @@ impl<'a, 'tcx> BodyCx<'a, 'tcx> {
             Rvalue::UnaryOp(op, a) => {
                 format!("{{\"un\":{},\"a\":{}}}", jstr(&format!("{:?}", op)), self.operand(a))
             }
-            Rvalue::Discriminant(p) => format!("{{\"discr\":{}}}", self.place(p)),
+            Rvalue::Discriminant(p) => {
+                let pty = p.ty(&self.body.local_decls, tcx).ty;
+                let mut extra = String::new();
+                if let TyKind::Adt(adt, _) = pty.kind() {
+                    if adt.is_enum() {
+                        extra.push_str(",\"adt\":");
+                        let ap = self.cx.path(adt.did());
+                        esc(&ap, &mut extra);
+                        extra.push_str(",\"variants\":[");
+                        for (i, (vi, d)) in adt.discriminants(tcx).enumerate() {
+                            if i > 0 {
+                                extra.push(',');
+                            }
+                            let _ = write!(extra, "[{},", d.val);
+                            esc(adt.variant(vi).name.as_str(), &mut extra);
+                            extra.push(']');
+                        }
+                        extra.push(']');
+                    }
+                }
+                format!("{{\"discr\":{}{}}}", self.place(p), extra)
+            }
             Rvalue::CopyForDeref(p) => format!("{{\"use\":{{\"cp\":{}}}}}", self.place(p)),
             Rvalue::Aggregate(kind, ops) => {
                 let mut o = String::from("{\"agg\":{");
